@@ -176,7 +176,10 @@ def build_cases(spec, tier, uni, rnd):
     cap = spec.cap[tier]
     exhaustive = True
     if total > cap:
-        uniq = rnd.sample(uniq, cap)
+        # the smallest terms first (they are the cores every larger failure reduces to), the rest sampled
+        uniq.sort(key=lambda t: len(render.compact(t["q"])))
+        head = uniq[:cap // 2]
+        uniq = head + rnd.sample(uniq[cap // 2:], cap - len(head))
         exhaustive = False
     cases = []
     cid = 0
